@@ -228,6 +228,13 @@ func (g *gen) elabName(name string, e *env) (Val, error) {
 		if len(e.results) >= 1 {
 			return e.results[0], nil
 		}
+		// inside the body (loop invariants, point assertions, ghost assignments) a source variable that happens
+		// to be called `result` is meant
+		if e.atBlock != nil {
+			if v, ok := g.lookupLocal("result", e); ok {
+				return v, nil
+			}
+		}
 		return Val{}, fmt.Errorf("result used in a function without results")
 	case "iter":
 		if e.atBlock != nil {
@@ -467,6 +474,13 @@ func (g *gen) elabBin(x *Expr, e *env) (Val, error) {
 			eq = "(= (s.ref " + b.T + ") 0)"
 		case a.S == "Float64" || a.S == "Float32":
 			eq = "(fp.eq " + a.T + " " + b.T + ")"
+		case a.S == "Str" && b.S == "Str" && isStrLitName(a.T) && isStrLitName(b.T):
+			// two literals: decided here (distinct literal names are distinct texts)
+			if a.T == b.T {
+				eq = "true"
+			} else {
+				eq = "false"
+			}
 		default:
 			if a.S != b.S {
 				return Val{}, fmt.Errorf("comparing %s with %s in %s", a.S, b.S, x)
@@ -748,6 +762,10 @@ func (g *gen) elabQuant(x *Expr, e *env) (Val, error) {
 		inner = "(! " + inner + pats + ")"
 	}
 	return boolVal("(" + x.Op + " (" + strings.Join(binds, " ") + ") " + inner + ")"), nil
+}
+
+func isStrLitName(t string) bool {
+	return t == "str_empty" || strings.HasPrefix(t, "strlit!")
 }
 
 func normSQL(s string) string {
